@@ -586,7 +586,8 @@ Proof.
     intros _. apply I7. auto.
   - destruct I as (I1 & I2 & I3 & I4 & I5).
     assert (W : wr = WFin) by auto. assert (S : ws = true) by (apply I2; auto).
-    repeat split; auto; try discriminate. intros T. destruct cl; auto. exfalso. apply T. auto.
+    split; auto. split; auto. split; auto. split; [| discriminate].
+    intros T. split; auto. destruct cl; auto.
 Qed.
 
 Lemma live_done : forall x k, cinv x -> c_phase x = PDone -> c_closed x = false ->
@@ -685,9 +686,11 @@ Qed.
 Lemma sig_mono : forall s a, sig s = true -> sig (fst (step s a)) = true.
 Proof.
   intros s a H. unfold sig in *.
-  destruct a; step_cases; auto; try (apply orb_true_iff; auto; fail).
-  - rewrite Heqn in H. simpl in H. rewrite orb_false_r in H. rewrite H. reflexivity.
-  - rewrite Heqn0 in H. simpl in H. rewrite orb_false_r in H. rewrite H. reflexivity.
+  destruct a; unfold step;
+    repeat match goal with |- context [match ?e with _ => _ end] => destruct e eqn:? end;
+    simpl in *; auto;
+    try (match goal with E : s_handles _ = _ |- _ => rewrite E end; simpl; auto using orb_true_r; fail);
+    try (apply orb_true_iff in H; destruct H as [H | H]; [rewrite H; auto | discriminate]).
 Qed.
 
 Lemma stop_idempotent : forall s,
@@ -700,11 +703,10 @@ Lemma stop_idempotent : forall s,
   (snd (step s1 Stop) = OStopOk \/ snd (step s1 Stop) = OStopAlready \/ snd (step s1 Stop) = ONoHandle).
 Proof.
   intros s. unfold step. destruct (s_handles s) eqn:Hn; simpl.
-  - rewrite Hn. simpl. repeat split; auto; try (intros; discriminate). intros [X _]. congruence.
+  - rewrite Hn. simpl. intuition (try discriminate; try congruence).
   - destruct (all_dropped s) eqn:D; simpl; rewrite ?Hn; simpl.
-    + rewrite D. simpl. repeat split; auto. discriminate.
-    + unfold all_dropped, accept_done in *. simpl. rewrite D. simpl.
-      repeat split; auto; try (intros; discriminate). intros [_ X]. discriminate.
+    + rewrite D. simpl. intuition (try discriminate; try congruence).
+    + unfold all_dropped, accept_done in *. simpl. rewrite D. simpl. intuition (try discriminate; try congruence).
 Qed.
 
 Lemma drop_handle_harmless : forall s,
@@ -787,23 +789,91 @@ Proof.
         destruct (done_conn x (Forall_nth _ _ _ _ _ I1 N1) Dn) as (_ & _ & _ & _ & K).
         unfold cstep. destruct (c_kind x).
         -- rewrite (K eq_refl) in P. discriminate.
-        -- destruct (c_tok x); auto. discriminate.
+        -- destruct (c_tok x); auto; discriminate.
     + destruct (forallb_false_nth _ _ _ F) as (n & x & N1 & P).
       assert (Dn : c_phase x <> PDone) by (intro Z; apply phase_done_eq in Z; congruence).
       destruct (conn_progress x (Forall_nth _ _ _ _ _ I1 N1) Dn) as (a & Ia & St).
       exists (Conn n a). rewrite internal_conn. split; auto. rewrite effective_conn, N1, Sg.
-      destruct (cstep true x a); auto. congruence.
+      destruct (cstep true x a); auto; congruence.
   - (* accept loop has returned: some connection is not done *)
     unfold all_dropped, accept_done in D. rewrite A in D. simpl in D.
     destruct (forallb_false_nth _ _ _ D) as (n & x & N1 & P).
     assert (Dn : c_phase x <> PDone) by (intro Z; apply phase_done_eq in Z; congruence).
     destruct (conn_progress x (Forall_nth _ _ _ _ _ I1 N1) Dn) as (a & Ia & St).
     exists (Conn n a). rewrite internal_conn. split; auto. rewrite effective_conn, N1, Sg.
-    destruct (cstep true x a); auto. congruence.
+    destruct (cstep true x a); auto; congruence.
 Qed.
 
 Lemma stopped_enabled : forall s, all_dropped s = true -> s_resolved s = false -> s_handles s <> 0 ->
   effective s StoppedResolves = true.
 Proof.
   intros s D R H. unfold effective, step. destruct (s_handles s); try congruence. rewrite D, R. reflexivity.
+Qed.
+
+(* ------------------------------------------------------------------ C10: every internal step makes progress *)
+
+Definition tweight (t : N * tstate) : nat := match snd t with TSpawned => 4 | TExec => 3 | TRet => 2 end.
+Fixpoint tsum (l : list (N * tstate)) : nat := match l with [] => 0 | t :: r => tweight t + tsum r end.
+
+Definition cmu (x : conn) : nat :=
+  5 * length (c_inbox x) + tsum (c_tasks x) + length (c_queue x) +
+  (match c_phase x with PReading => 3 | PGraceful => 2 | PClosing => 1 | PDone => 0 end) +
+  (match c_writer x with WRun => 1 | WFin => 0 end) + (if c_tok x then 1 else 0).
+
+Fixpoint csum (l : list conn) : nat := match l with [] => 0 | x :: r => cmu x + csum r end.
+
+Definition mu (s : state) : nat :=
+  csum (s_conns s) + (match s_accept s with ARun => 2 | ADrain => 1 | ADone => 0 end) + (if s_resolved s then 0 else 1).
+
+Lemma tsum_app : forall a b, tsum (a ++ b) = tsum a + tsum b.
+Proof. induction a; simpl; intros; auto. rewrite IHa. lia. Qed.
+
+Lemma set_first_tsum : forall t t' l l', set_first t t' l = Some l' -> tsum l' + tweight t = tsum l + tweight t'.
+Proof.
+  induction l; simpl; intros; try discriminate.
+  destruct (task_eqb a t) eqn:E.
+  - inversion H; subst. apply task_eqb_eq in E. subst. simpl. lia.
+  - destruct (set_first t t' l) eqn:S; try discriminate. inversion H; subst. simpl. specialize (IHl _ eq_refl). lia.
+Qed.
+
+Lemma remove_first_tsum : forall t l l', remove_first t l = Some l' -> tsum l' + tweight t = tsum l.
+Proof.
+  induction l; simpl; intros; try discriminate.
+  destruct (task_eqb a t) eqn:E.
+  - inversion H; subst. apply task_eqb_eq in E. subst. lia.
+  - destruct (remove_first t l) eqn:S; try discriminate. inversion H; subst. simpl. specialize (IHl _ eq_refl). lia.
+Qed.
+
+Lemma cstep_decreases : forall sg x a x', cact_internal a = true -> cstep sg x a = Some x' -> cmu x' < cmu x.
+Proof.
+  intros sg [kd inb tk q w ph wr ws cl tok sb] a x' Ia H. unfold cmu.
+  destruct a; try discriminate Ia; cstep_cases H; simpl in *; subst; simpl in *;
+    repeat match goal with
+           | HH : set_first _ _ _ = Some _ |- _ => apply set_first_tsum in HH; unfold tweight in HH; simpl in HH
+           | HH : remove_first _ _ = Some _ |- _ => apply remove_first_tsum in HH; unfold tweight in HH; simpl in HH
+           end;
+    rewrite ?tsum_app, ?app_length; simpl; unfold tweight; simpl; try lia.
+Qed.
+
+Lemma csum_upd : forall l c x x', nth_error l c = Some x -> cmu x' < cmu x -> csum (upd c x' l) < csum l.
+Proof.
+  induction l; destruct c; simpl; intros; try discriminate.
+  - inversion H; subst. lia.
+  - specialize (IHl _ _ _ H H0). lia.
+Qed.
+
+Lemma internal_step_decreases : forall s a, internal a = true -> effective s a = true -> mu (fst (step s a)) < mu s.
+Proof.
+  intros s a Ia E. unfold mu.
+  destruct a; try discriminate Ia.
+  - rewrite internal_conn in Ia. rewrite effective_conn in E.
+    destruct (nth_error (s_conns s) c) eqn:N1; try discriminate.
+    destruct (cstep (sig s) c0 a) eqn:St; try discriminate.
+    rewrite (step_conn_some _ _ _ _ _ N1 St). simpl.
+    pose proof (csum_upd _ _ _ _ N1 (cstep_decreases _ _ _ _ Ia St)). lia.
+  - unfold effective, step in *. destruct (s_accept s); try discriminate. destruct (sig s); try discriminate. simpl. lia.
+  - unfold effective, step in *. destruct (s_accept s); try discriminate.
+    destruct (forallb (fun x => negb (c_tok x)) (s_conns s)); try discriminate. simpl. lia.
+  - unfold effective, step in *. destruct (s_handles s); try discriminate.
+    destruct (all_dropped s); try discriminate. destruct (s_resolved s); try discriminate. simpl. lia.
 Qed.
